@@ -3,6 +3,9 @@ pub mod c03;
 pub mod c04;
 pub mod c06;
 pub mod c07;
+pub mod c08;
+pub mod c09;
+pub mod c10;
 pub mod c11;
 pub mod c15;
 pub mod c13;
@@ -17,6 +20,9 @@ pub fn run(id: &str, tier: &str) -> i32 {
         "C03" => c03::run(&rep),
         "C04" => c04::run(&rep),
         "C07" => c07::run(&rep),
+        "C08" => c08::run(&rep),
+        "C09" => c09::run(&rep),
+        "C10" => c10::run(&rep),
         "C11" => c11::run(&rep),
         "C15" => c15::run(&rep),
         "C13" => c13::run(&rep),
